@@ -59,3 +59,44 @@ PROPS["C12"] = dict(
     level_note="Trusted: Go's AES-GCM; the in-memory DHStoreAPI and HTTP provider source written for the harness.",
     assumptions=["race reports in go-libipni frames count as violations (deterministic, comparable encryption must be safe for concurrent callers)"],
 )
+
+PROPS["C20"] = dict(
+    race=False,
+    shards={"quick": 8, "thorough": 16},
+    level="exploration",
+    design_ref="DESIGN.md §4 C20",
+    technique="runtime monitor: round-trip oracle on generated URLs, request path observed at a local server, helpers vs by-construction labels",
+    rule=("url-roundtrip: seeded URLs = {http,https} x {IPv4, IPv6 (no zone, not v4-mapped), DNS name} x port {absent,0,1,80,443,65535,random} "
+          "x paths over the full URL path character set (unreserved, sub-delims, space, '+', '%', %-escapes, '//', trailing '/', '?', '#', UTF-8), "
+          "each parsed from its textual form; tls-forms: /http, /https, /tls/http multiaddrs; end-to-end: a real sync client is given "
+          "FromURL(publisher URL) and the path it requests is observed at a local HTTP server; helpers: address lists generated from labelled "
+          "templates (public/private/loopback/unspecified/localhost/dns x http/https/tls-http/other) with duplicates, nils, permutations. "
+          "distinct_nontrivial = distinct (scheme, host kind, port present, path character classes) tuples, (host kind, form), path classes seen end "
+          "to end, and address-class multisets of size >=2."),
+    floors={"quick": {"path_space": 500, "path_plus": 500, "path_pct": 500, "host_ip6": 2000, "host_dns": 2000, "e2e_requests": 200, "multiplicity_checked": 1000},
+            "thorough": {"path_space": 20000, "path_plus": 20000, "host_ip6": 100000, "e2e_requests": 5000}},
+    level_text=("Exploration: conversions are run on seeded URLs covering every host kind, port shape and path character class; the "
+                "oracle is equality of scheme, hostname, port and decoded path, plus the path a real sync client actually requests. "
+                "Helper functions are compared with labels known by construction."),
+    level_note="Trusted: net/url's parsing of the generated URL text; the address-class labels of the generator templates.",
+    assumptions=["IPv6 zones and IPv4-mapped IPv6 addresses are outside the claim and are not generated"],
+)
+
+PROPS["C17"] = dict(
+    race=False,
+    shards={"quick": 8, "thorough": 16},
+    level="exploration",
+    design_ref="DESIGN.md §4 C17",
+    technique="runtime monitor: differential against an independent specification function of the IPNI expansion rules",
+    rule=("seeded provider records: 0..4 chain-level and 0..3 contextual sets (override on/off, matching or not the looked-up context id) whose "
+          "entries carry metadata nil / empty / equal to / different from the looked-up metadata, main provider present or absent in either list, "
+          "metadata lists shorter / longer / nil relative to the provider lists; delivered through a fake source and (1 in 5) through the HTTP/JSON "
+          "source; GetResults is compared, in order, with a 30-line specification function, or must return an error; never panic. "
+          "distinct_nontrivial = distinct record shapes (sequence of set kinds, main-provider positions, metadata kinds, mismatch kinds) with "
+          "extended providers."),
+    floors={"quick": {"shape_md-shorter": 500, "shape_md-longer": 500, "shape_md-nil": 500, "via_http_json": 1000, "expanded_results": 5000, "distinct": 3000}},
+    level_text=("Exploration: GetResults is executed on seeded records covering every clause of the expansion rules and every list-length "
+                "mismatch a source can deliver, and compared with an independently written specification."),
+    level_note="Trusted: the specification function c17Spec in harness/props/c17.go (written from the property statement and the IPNI spec).",
+    assumptions=["records with two contextual sets for the same context id are not generated (which one wins is not stated)"],
+)
